@@ -46,8 +46,9 @@ func (r *report) replayDir() string {
 func (r *report) processViolations() {
 	r.knownHit = map[string]string{}
 	type group struct {
-		key string
-		vs  []Violation
+		key  string
+		vs   []Violation
+		sigs map[string]int
 	}
 	groups := map[string]*group{}
 	var order []string
@@ -60,7 +61,19 @@ func (r *report) processViolations() {
 				groups[k] = g
 				order = append(order, k)
 			}
-			if len(g.vs) < 4 {
+			// candidates for native confirmation: a few per distinct decision vector, so that a spurious model on one
+			// path does not hide a genuine counterexample on another
+			sig := ""
+			for _, rv := range v.Values {
+				if rv.Kind == "choice" {
+					sig += fmt.Sprintf("%s=%d,", rv.Name, rv.Int)
+				}
+			}
+			if g.sigs == nil {
+				g.sigs = map[string]int{}
+			}
+			if len(g.vs) < 16 && g.sigs[sig] < 2 {
+				g.sigs[sig]++
 				g.vs = append(g.vs, v)
 			}
 		}
